@@ -1,7 +1,7 @@
 (* C14 - Table catalogue: unique names, never-reused ids, empty when (re)created.
    Statements only; every proof is [exact <lemma>].
    [crun (cst0 k) acts]: any interleaving, at the granularity of single metadata-store operations, of CreateTable /
-   DeleteTable / GetTables calls by k managers.  Table names are path segments: names containing '/' would alias
+   DeleteTable / Restore (incl. restores whose stream breaks off) / GetTables calls by k managers.  Table names are path segments: names containing '/' would alias
    internal records ("sys/idseq" IS the id sequence) and are rejected by the repaired code (KNOWN_FINDINGS.json
    F-C14-slash-names). *)
 From Verif Require Import Model.Bytes Model.Catalogue Proofs.CatalogueFacts.
@@ -22,6 +22,34 @@ Print Assumptions C14_created_id_fresh.
 Theorem C14_invariant_step : forall (s : cst) (a : caction), CInv s -> CInv (fst (cexec s a)).
 Proof. exact cexec_inv. Qed.
 Print Assumptions C14_invariant_step.
+
+(* the same for Restore (also a retried one that finds the recovery id of an interrupted attempt in the record): the
+   id it holds was never given to a table, and every id drawn from the sequence - by a creation or a restore - is
+   greater than every id drawn before *)
+Theorem C14_restore_id_fresh : forall (s : cst) (m : nat) (id : N), CInv s ->
+  In id (ids_of (get_pc (c_pcs s) m)) -> ~ In id (c_created s).
+Proof. exact held_id_fresh. Qed.
+Theorem C14_drawn_id_above_all : forall (s : cst) (m : nat) (v w : N), CInv s -> In (get_pc (c_pcs s) m) (c_pcs s) ->
+  seqread (get_pc (c_pcs s) m) = Some (v, w) -> cas_seq s w = true -> forall id, In id (all_ids s) -> id < v + 1.
+Proof. exact drawn_id_above. Qed.
+Print Assumptions C14_restore_id_fresh.
+Print Assumptions C14_drawn_id_above_all.
+
+(* the last step of a restore switches the table to the recovery shard: its id becomes the table's id *)
+Theorem C14_restore_switch : forall (s : cst) (m : nat) (name id ver : N),
+  get_pc (c_pcs s) m = CRest5 name id ver -> cas_tab s name ver = true ->
+  snd (cexec s (AStep m)) = CRRestored id /\
+  tget (c_tabs (fst (cexec s (AStep m)))) name = Some ({| t_cluster := id; t_recover := 0 |}, c_next s) /\
+  c_created (fst (cexec s (AStep m))) = id :: c_created s.
+Proof. exact restore_switch. Qed.
+(* undisturbed, a restore succeeds with the next id of the sequence, whatever record it starts from *)
+Theorem C14_restore_alone : forall (s : cst) (m : nat) (name : N), (m < length (c_pcs s))%nat -> get_pc (c_pcs s) m = CIdle ->
+  exists s', crun s [ARestore m name; AStep m; AStep m; AStep m; AStep m; AStep m] =
+               (s', [CRNone; CRNone; CRNone; CRNone; CRNone; CRRestored (cur s + 1)]) /\
+             tget (c_tabs s') name = Some ({| t_cluster := cur s + 1; t_recover := 0 |}, c_next s + 2) /\
+             c_created s' = (cur s + 1) :: c_created s.
+Proof. exact restore_alone. Qed.
+Print Assumptions C14_restore_alone.
 
 (* creating succeeds only if no table of that name exists - and, absent concurrent catalogue changes, always then *)
 Theorem C14_create_existing_refused : forall (s : cst) (m : nat) (name : N) rv,
@@ -61,6 +89,17 @@ Print Assumptions C14_diff_exact.
 Theorem C14_isolation : forall (V : Type) (f : family V) (id : N) (v : V) (j : N), j <> id -> fam_update f id v j = f j.
 Proof. exact (@family_isolation). Qed.
 Print Assumptions C14_isolation.
+
+(* non-vacuity for restores: an interrupted restore leaves its recovery id in the record; a creation draws the next id;
+   the retried restore draws a NEW id (it does not pick the recovery id up again) *)
+Example C14_restore_example :
+  let out := crun (cst0 2) [ACreate 0 7; AStep 0; AStep 0; AStep 0;
+                           ARestore 0 7; AStep 0; AStep 0; AStep 0; AFail 0;
+                           ACreate 1 8; AStep 1; AStep 1; AStep 1;
+                           ARestore 0 7; AStep 0; AStep 0; AStep 0; AStep 0; AStep 0; AList 1] in
+  c_created (fst out) = [10004; 10003; 10001] /\
+  last (snd out) CRNone = CRList [(7, 10004); (8, 10003)].
+Proof. vm_compute. split; reflexivity. Qed.
 
 Example C14_example :
   snd (crun (cst0 2) [ACreate 0 7; ACreate 1 7; AStep 0; AStep 1; AStep 0; AStep 1; AStep 0; AStep 1; AList 0]) =
